@@ -19,6 +19,60 @@ CHECKS = {
         technique="TLA+ spec + TLC exhaustive invariants/action properties; graph replay into code; TLC trace validation of recorded runs",
         design="5/C07",
     ),
+    "C05": dict(
+        engine="CincoFields/FieldLab",
+        text="TLC checks C05_AcceptedMeets / MeetingAccepted / Idempotent / BasicPlain / CodecInverse / DecodedAccepted on the "
+        "five-step FieldLab machine (validate, validate again, to_basic, to_python, validate) over eleven families of field "
+        "descriptors x candidate values (exhaustive per family); every enumerated case is executed on the real field object and "
+        "compared stage by stage; seeded random descriptors/values outside the families are run on the real fields and TLC "
+        "re-evaluates the specification's operators and the predicates on the logged results (Trace_FieldLab).",
+        note="Validate/ToBasic/ToPython are transcriptions of fields/*.py over an abstract value universe (half-integer floats, "
+        "ASCII model alphabet, regex catalogue, decimal prefix lengths, abstract file system); DNS resolution excluded.",
+        technique="TLA+ operators for every field class + TLC exhaustive invariants over descriptor/value grids; case replay into code; TLC re-evaluation of recorded cases",
+        design="5/C05",
+    ),
+    "C01": dict(
+        engine="ConfigMachine",
+        text="TLC checks C01_AllValid (every stored value at every depth Meets its field) and C01_Readback (accepted assignment "
+        "stores the normal form, frame) on the ConfigMachine specification: two configurations of one schema driven through "
+        "attribute/dotted assignment, constructor keywords, load_tree, reset, validate and every ListProxy/DictProxy mutator, all "
+        "histories to the depth bound; each transition of the first levels and of simulated deeper behaviours is executed on real "
+        "Config objects and the projected state compared; random operation logs from real objects are validated by TLC "
+        "(Trace_Config) with the predicates evaluated on every observed state.",
+        note="Bounded instance MC_Config/SchemaA (scalars with bounds/transforms, typed list and dict, nested schemas with a validator, lists of schemas with and without defaults), candidate pools, depth 3 (quick) / 4 (thorough); object identity observed as the set of replaced paths; values outside the model's grammars are marked Unmodelled and skipped (counted in evidence).",
+        technique="TLA+ state machine of Config + TLC invariants/action properties; transition replay into code; TLC trace validation",
+        design="5/C01",
+    ),
+    "C06": dict(
+        engine="ConfigMachine",
+        text="TLC checks the action property C06_Unchanged (a rejected assignment by attribute/dotted path/constructor keyword, "
+        "incl. map or configuration -> sub-configuration, or a rejected single-element insert/replace on a typed list or dict, "
+        "changes nothing: values at all depths, default marks, identity of nested configurations) on ConfigMachine; same two "
+        "conformance directions as C01, the trace specification evaluates the predicate on every rejected observed step.",
+        note="Bounded instance MC_Config/SchemaA (scalars with bounds/transforms, typed list and dict, nested schemas with a validator, lists of schemas with and without defaults), candidate pools, depth 3 (quick) / 4 (thorough); object identity observed as the set of replaced paths; values outside the model's grammars are marked Unmodelled and skipped (counted in evidence).  The document-load clause is covered where loads are modelled (C18 machinery) once built.",
+        technique="TLA+ action property over all routes x rejected values x prior states; replay into code; TLC trace validation",
+        design="5/C06",
+    ),
+    "C12": dict(
+        engine="ConfigMachine",
+        text="TLC checks C12_Fresh (fresh configuration shows declared defaults, nothing user-defined except keywords), "
+        "C12_Marks (the mark leaves exactly on an accepted assignment, never on a rejected one) and C12_Reset (value and mark "
+        "restored, frame) on ConfigMachine over all interleavings of set / failed set / load / reset / constructor to the depth bound; "
+        "conformance as for C01 with is_value_defined projected for every key at every depth.",
+        note="Bounded instance MC_Config/SchemaA (scalars with bounds/transforms, typed list and dict, nested schemas with a validator, lists of schemas with and without defaults), candidate pools, depth 3 (quick) / 4 (thorough); object identity observed as the set of replaced paths; values outside the model's grammars are marked Unmodelled and skipped (counted in evidence).",
+        technique="TLA+ invariants/action properties on default marks; replay into code; TLC trace validation",
+        design="5/C12",
+    ),
+    "C13": dict(
+        engine="ConfigMachine",
+        text="TLC checks C13_Isolated (an operation on one configuration never changes the other, built before or after) on "
+        "ConfigMachine; because the specification has value semantics, any aliasing in the implementation (shared default lists, "
+        "shared item configurations, shared sub-configurations) shows up in conformance as a state change of the untouched "
+        "configuration that the specification does not allow.",
+        note="Bounded instance MC_Config/SchemaA (scalars with bounds/transforms, typed list and dict, nested schemas with a validator, lists of schemas with and without defaults), candidate pools, depth 3 (quick) / 4 (thorough); object identity observed as the set of replaced paths; values outside the model's grammars are marked Unmodelled and skipped (counted in evidence).",
+        technique="TLA+ action property (frame on the other configuration); replay into code exposes aliasing; TLC trace validation",
+        design="5/C13",
+    ),
 }
 
 PENDING_REASON = "check not built yet in this round (planned, see DESIGN.md section 5); nothing is claimed for it"
